@@ -35,4 +35,4 @@ DELIVERABLES, in {wt}-out/A/ and {wt}-out/B/ :
   demo_test.go — the demonstration, plus a first-line comment saying in which package directory it must be placed and how to run it
   meta.json    — {{"property": "{d['id']}", "summary": "...", "needs_to_manifest": "...", "files_touched": [...],
                    "existing_tests_run": "<commands and result>", "demo_fails_with_patch": true, "demo_passes_without_patch": true}}
-Leave the worktree clean (git checkout -- . ; remove untracked files) when you are done. Final answer: two short paragraphs (A, B).""")
+NEVER use `git stash` (the stash is shared by all worktrees of this repository and other people are working in sibling worktrees): to toggle a change use `git diff > /tmp/x.diff; git apply -R /tmp/x.diff; ...; git apply /tmp/x.diff`. Leave the worktree clean (git checkout -- . ; remove untracked files) when you are done. Final answer: two short paragraphs (A, B).""")
